@@ -7,8 +7,10 @@ import (
 	"errors"
 	"fmt"
 	"io"
+	"os"
 	"strings"
 	"sync"
+	"syscall"
 	"time"
 
 	"go.uber.org/multierr"
@@ -262,6 +264,9 @@ func multi(r *ev.Run) {
 					}
 					if (vec+i)%3 == 0 {
 						sinks[i].syncErr = fmt.Errorf("sync-error-sink-%d", i)
+						if vec%2 == 0 { // an operating-system error underneath, as real files, pipes and terminals give
+							sinks[i].syncErr = fmt.Errorf("sync-error-sink-%d: %w", i, []error{syscall.EINVAL, syscall.ENOTTY, syscall.EIO}[(vec/2+i)%3])
+						}
 					}
 					ws[i] = sinks[i]
 					names[i] = o.name
@@ -379,7 +384,10 @@ func wrappers(r *ev.Run) {
 	for i, c := range []struct {
 		n   int
 		err error
-	}{{-1, nil}, {3, nil}, {0, nil}, {-1, e1}, {3, e1}, {0, e1}, {7, io.ErrShortWrite}} {
+	}{{-1, nil}, {3, nil}, {0, nil}, {-1, e1}, {3, e1}, {0, e1}, {7, io.ErrShortWrite},
+		// errors of the kind the operating system reports (for a Sync on a terminal or pipe, a full disk,
+		// a closed file), bare and wrapped: results are relayed, not interpreted
+		{-1, syscall.EINVAL}, {-1, syscall.ENOTTY}, {0, syscall.ENOSPC}, {-1, fmt.Errorf("sync /dev/stdout: %w", syscall.EINVAL)}, {-1, &os.PathError{Op: "sync", Path: "/dev/stdout", Err: syscall.ENOTTY}}, {0, os.ErrClosed}, {-1, io.EOF}} {
 		id := fmt.Sprintf("c13/wrap/%d", i)
 		if !r.Want(id) {
 			continue
